@@ -795,7 +795,11 @@ class Interp(object):
                     return True
                 if name == 'XLError':
                     continue     # call-outs fork 'raises an XLError' separately: AnyException stands for every other class
-                raise OutOfReach('unknown exception class against except %s' % name)
+                # a specific class: the unknown exception may or may not be an instance of it - both are explored (the object keeps
+                # its unknown class either way, so a later `except Exception` still catches it)
+                if self.ctx.choose([True, True]) == 0:
+                    return True
+                continue
             if exc_isinstance(pr.cls, name):
                 return True
         return False
